@@ -455,7 +455,7 @@ def from_impl_into_verus(ctx, fw, src_ty, dst_ty, spec_expr, tags=(), trusted=Fa
 
 # ----------------------------------------------------------------------------- W5 split / outline
 def outline(ctx, fw, fnnode, first, last, name, params, args, outs=(), types=(), kind="try", mode="V",
-            requires=(), ensures=(), tags=(), unit=None, ret="res", target=None, attrs=(), decreases=None, generics=""):
+            requires=(), ensures=(), tags=(), unit=None, ret="res", target=None, attrs=(), decreases=None, generics="", method=None):
     """W5: the contiguous statement range first..last of `fnnode` becomes a function of its own.
       kind 'plain'   : fn name(params) -> (T..)                         { STMTS (o..) }          call: let (o..) = name(args);
       kind 'try'     : fn name(params) -> anyhow::Result<(T..)>          { STMTS Ok((o..)) }      call: let (o..) = name(args)?;
@@ -479,16 +479,27 @@ def outline(ctx, fw, fnnode, first, last, name, params, args, outs=(), types=(),
         rty, tail, call = "anyhow::Result<Option<%s>>" % tup_t, "Ok(Some(%s))" % tup_v, "let Some(%s) = %s(%s)? else { return Ok(None); };" % (tup_p, name, args)
     else:
         raise WeaveError("outline kind " + kind)
-    if target is None:
-        top = fnnode
-        while top["fn"] >= 0:
-            top = fw.byid[top["fn"]]
-        im = fw._impl_of(top)
-        target = (im or top)["span"][1]
-    unit = unit or "%s::%s" % (fw.rel[:-3].replace("/mod", "").replace("/", "::"), name)
+    top = fnnode
+    while top["fn"] >= 0:
+        top = fw.byid[top["fn"]]
+    im = fw._impl_of(top)
     pre_attrs = "".join("#[%s]\n" % a for a in attrs) + ("#[verifier::external_body]\n" if mode == "T" else "")
-    pre = "\nverus!{\n%sfn %s%s(%s) -> (%s: %s)\n" % (pre_attrs, name, generics, params, ret, rty)
-    fw.move(s, e, target, pre=pre, suf="\n    %s\n}\n} // verus!\n" % tail, rule="W5", what="segment %s of %s" % (name, fw.fn_qualname(fnnode)), left=call)
+    if method:
+        # the segment mentions `self`: it becomes a method (`method` = "&self" | "&mut self") of the same impl
+        if im is None:
+            raise WeaveError("%s: outline %s: method segment outside an impl" % (fw.rel, name))
+        hdr = _impl_header(fw, im)
+        target = im["brace_close"][0]
+        call = call.replace("%s(" % name, "self.%s(" % name, 1)
+        pre = "\n}\nverus!{\n%s {\n%sfn %s%s(%s%s) -> (%s: %s)\n" % (hdr, pre_attrs, name, generics, method, (", " + params) if params else "", ret, rty)
+        suf = "\n    %s\n}\n}\n} // verus!\n%s {\n" % (tail, hdr)
+    else:
+        if target is None:
+            target = (im or top)["span"][1]
+        pre = "\nverus!{\n%sfn %s%s(%s) -> (%s: %s)\n" % (pre_attrs, name, generics, params, ret, rty)
+        suf = "\n    %s\n}\n} // verus!\n" % tail
+    unit = unit or "%s::%s" % (fw.rel[:-3].replace("/mod", "").replace("/", "::"), name)
+    fw.move(s, e, target, pre=pre, suf=suf, rule="W5", what="segment %s of %s" % (name, fw.fn_qualname(fnnode)), left=call)
     utags = set(tags)
     ftags = utags - {"C12"}
     if requires:
@@ -507,7 +518,7 @@ def outline(ctx, fw, fnnode, first, last, name, params, args, outs=(), types=(),
     if decreases:
         fw.insert(s, "    decreases %s,\n" % decreases, rule="W10")
     fw.insert(s, "{\n", rule="W5")
-    ctx.units[unit] = {"unit": unit, "file": fw.rel, "fn": name, "mode": mode, "tags": sorted(utags), "span": [s, e],
+    ctx.units[unit] = {"unit": unit, "file": fw.rel, "fn": ("%s::%s" % (im["self_ty"], name)) if method else name, "mode": mode, "tags": sorted(utags), "span": [s, e],
                        "line": fw.line_of(s), "end_line": fw.line_of(e), "segment_of": fw.fn_qualname(fnnode)}
     return unit
 
@@ -717,3 +728,14 @@ def map_sum(fw, fnnode, sum_node, vals):
     x = " ".join(fw.text(kids[0]["receiver_span"]).split())
     fw.replace(sum_node["span"][0], mp["paren_span"][0] + 1, "crate::verif_prelude::v_sum_map(%s.as_slice(), " % x, "W9-R-std-map-sum")
     fw.replace(mp["paren_span"][1] - 1, sum_node["span"][1], ", Ghost(%s))" % vals, "W9-R-std-map-sum")
+
+
+def self_reborrow(fw, span):
+    """R-self-reborrow (part of W5 for `fn f(mut self)`): inside a segment that became a `&mut self` method,
+    `&mut self` / `&self` passed as an argument become `&mut *self` / `&*self` (same object, one indirection more)"""
+    import re
+    text = fw.src[span[0]:span[1]].decode()
+    for m in re.finditer(r"&(mut )?self\b(?!\s*\.)", text):
+        a = span[0] + m.start()
+        b = span[0] + m.end()
+        fw.replace(a, b, "&mut *self" if m.group(1) else "&*self", "W5-R-self-reborrow")
